@@ -386,6 +386,8 @@ inline int verif_main(int argc, char** argv, const char* prop, CaseFn run_case)
       ctx.hb_path = hb_path;
       ctx.tmpdir = tmpdir;
       ctx.heartbeat("start");
+      std::fprintf(stderr, "\n@@VERIF-CASE %ld@@\n", idx); // lets the driver attribute non-fatal sanitizer reports to a case
+      std::fflush(stderr);
       bool skipped = false;
       std::string skip_why;
       try
